@@ -99,8 +99,19 @@ static void emit_sym(const SymCase &c) {
     ih.push_back(c.v[i] >> 16); il.push_back(c.v[i] & 0xFFFF);
     oh.push_back(got[i] >> 16); ol.push_back(got[i] & 0xFFFF);
   }
+  // inside the coder's documented reach the input is representable and has to be encoded: values below 2^31 for the tagged / automatic choice; for a
+  // forced raw scheme at most 2^17 distinct symbols (18 bits of alphabet) and values small enough for its histogram
+  uint32_t maxv = 0;
+  for (auto x : c.v) maxv = std::max(maxv, x);
+  bool must = maxv < (1u << 31);
+  if (c.method == 1) {
+    std::vector<uint32_t> u(c.v);
+    std::sort(u.begin(), u.end());
+    const size_t distinct = std::unique(u.begin(), u.end()) - u.begin();
+    must = maxv < (1u << 23) && distinct <= (1u << 17);
+  }
   out.begin("Sym").s("dist", c.dist).i("n", c.v.size()).i("nc", c.nc).i("level", c.level).i("method", c.method).i("scheme", scheme)
-      .b("eok", eok).b("dok", dok).b("sentinel", sok).i("pos", pos).i("blockend", (long)block_end)
+      .b("must", must).b("eok", eok).b("dok", dok).b("sentinel", sok).i("pos", pos).i("blockend", (long)block_end)
       .arr("ih", ih).arr("il", il).arr("oh", oh).arr("ol", ol).end();
   fflush(stdout);
 }
@@ -170,6 +181,19 @@ static int run_symbols(uint64_t seed, long n) {
     SymCase c; c.nc = 1; c.level = 10; c.method = 1; c.dist = "distinct2^17";
     for (uint32_t i = 0; i < (1u << 17); ++i) c.v.push_back(i);
     if (n >= 1000) forked(c, "distinct2^17");
+    // the level adds up to two bits to the alphabet's bit length: 2^16 distinct symbols at the three highest levels sit on the clamp to 18 bits
+    c.v.resize(1u << 16); c.dist = "distinct2^16";
+    for (int level : {10, 9, 8}) { c.level = level; forked(c, "distinct2^16"); }
+  }
+  // one dominant symbol and a long tail of symbols that occur once in ~10^5 values (17..20 bits of precision, probabilities of a few units): writing
+  // such a symbol while the coder state is in its top octaves flushes three bytes
+  for (int cfg = 0; cfg < 4; ++cfg) {
+    static const int levels[] = {10, 7, -1, 4}, methods[] = {1, 1, -1, 1};
+    SymCase c; c.nc = 1; c.level = levels[cfg]; c.method = methods[cfg]; c.dist = "long-tail";
+    const uint32_t N = 100000, T = 2100;
+    c.v.assign(N + T, 0);
+    for (uint32_t k = 0; k < T; ++k) c.v[(size_t)(((uint64_t)k * 2654435761u + 12345u + cfg) % (N + T))] = 1 + k;   // collisions just lose a few tail symbols
+    forked(c, "long-tail");
   }
   // forced raw scheme with wide values and thousands of distinct symbols (the histogram pass must not be skipped)
   for (int rep = 0; rep < 2; ++rep) {
